@@ -112,8 +112,10 @@ class Node(node_abi.Mixin):
         return h
 
     def fm_input(self, h, name: str, data: bytes):
-        if not self.lib.aws_fm_input(h, name.encode(), data, len(data)):
+        r = self.lib.aws_fm_input(h, name.encode(), data, len(data))
+        if not r:
             self.raise_last()
+        return r == 2       # the machine does not declare this input "must be writable": it lies in read-only pages
 
     FM_BEGIN, FM_RUN, FM_STEP, FM_RESUME, FM_RESET, FM_BEGIN0, FM_RUN0 = range(7)
 
